@@ -13,11 +13,17 @@
     [C03_budget] holds for every clock, the share being the clock's own f64
     quotient; [C03_budget_exact] restates it for the microsecond virtual clock
     with the exact rational blocked/elapsed (values below 2^53 us = 285 years;
-    zero elapsed time with nothing blocked counts as below). *)
+    zero elapsed time with nothing blocked counts as below).
+    [C03_budget_std] is the same statement for the crate's default clock
+    (std::time, nanosecond ticks): there the code's share is the quotient of
+    two as_secs_f64() values (two roundings per operand), so the exact
+    rational share is shown to be below the limit times (1 + 2^-50)
+    ([C03_share_std_tolerance], durations below 2^53 s). *)
 From Coq Require Import Reals.
 From Flocq Require Import Core.Core IEEE754.BinarySingleNaN.
 From MB Require Import Model.Framework Model.Validate.
 From MB Require Import Proofs.FrameworkAcct Proofs.AcctSpec Proofs.PaddingBudget Proofs.BlockingBudget.
+From MB Require Import Model.Sim Proofs.BlockingBudgetStd.
 Open Scope N_scope.
 
 Theorem C03_budget : forall c tp t0 s0 h e t s' outs i tmo dur byp rep m,
@@ -67,3 +73,38 @@ Print Assumptions C03_accounting.
     are saturating differences *)
 Example C03_backwards_is_zero : c_since vclock 5 10 = 0.
 Proof. reflexivity. Qed.
+
+(** the std::time clock: the f64 quotient of two as_secs_f64() values is within
+    a relative 2^-50 of the exact share *)
+Theorem C03_share_std_tolerance : forall f d e,
+  is_finite f = true -> (B2R f <= 1)%R ->
+  d < 2 ^ 53 * NS -> e < 2 ^ 53 * NS ->
+  share_below stdclock f d e ->
+  fgt f f64_zero = false \/ (e = 0 /\ d = 0) \/
+  (0 < e /\ (IZR (Z.of_N d) / IZR (Z.of_N e) < B2R f * (1 + / 2 ^ 50))%R).
+Proof. exact share_below_std_tolerance. Qed.
+Print Assumptions C03_share_std_tolerance.
+
+Theorem C03_budget_std : forall c tp t0 s0 h e t s' outs i tmo dur byp rep m,
+  valid_cfg c = true -> clk c = stdclock ->
+  fnew c tp t0 = Ok s0 ->
+  run c tp s0 (h ++ [([e], t)]) = Ok (s', outs) ->
+  In (TBlockOutgoing i tmo dur byp rep) (last outs []) ->
+  nth_error (machines c) (N.to_nat i) = Some m ->
+  let A := acct_hist stdclock (h ++ [([e], t)]) (acct0 c t0) in
+  exists ns ps bd, nth_error (a_m A) (N.to_nat i) = Some (ns, ps, bd) /\
+    let blocked_i := with_ongoing stdclock (a_bactive A) (a_now A) (a_bstart A) bd in
+    let blocked_g := with_ongoing stdclock (a_bactive A) (a_now A) (a_bstart A) (a_gblk A) in
+    let elapsed := Z.to_N (a_now A - a_start A) in
+    blocked_i < 2 ^ 53 * NS -> blocked_g < 2 ^ 53 * NS -> elapsed < 2 ^ 53 * NS ->
+    (rep = true /\ a_bactive A = true) \/
+    blocked_i < allowed_blocked_microsec m * 1000 \/
+    (share_below_tol (f64_of_bits (max_blocking_frac m)) blocked_i elapsed /\
+     share_below_tol (f64_of_bits (fw_max_blocking_frac c)) blocked_g elapsed).
+Proof. exact blocking_budget_history_stdclock. Qed.
+Print Assumptions C03_budget_std.
+
+(** the premise of the tolerance theorem is met, and refused, by concrete durations *)
+Example C03_std_share_nonvacuous :
+  share_below stdclock f_half 1200000000 3700000000 /\ ~ share_below stdclock f_half 2000000000 3700000000.
+Proof. split; [exact share_below_std_holds|exact share_below_std_fails]. Qed.
